@@ -268,3 +268,29 @@ W void w_parse_array_f(const unsigned char* in, unsigned n, unsigned char limit,
 }
 W size_t w_jsa_size(const JsonStringAdapter* a) { return a->size(); }
 W const char* w_jsa_data(const JsonStringAdapter* a) { return a->data(); }
+// ---- parseObject<Filter> step: filter documents {"k":true} / {"x":true} / {} / {"*":true} / true, linked without the cut functions
+ROB(T_app2, CollectionData, void (CollectionData::*)(Slot<VariantData>, Slot<VariantData>, const ResourceManager*), appendPair)
+static VariantData* fmember(ObjectData& o, ResourceManager& rm, const char* key) {
+  StringNode* k = rm.saveString(adaptString(key)); auto ks = rm.allocVariant(); auto vs = rm.allocVariant();
+  if (!k || !ks || !vs) return nullptr;
+  ks->setOwnedString(k); (o.*get(T_app2()))(ks, vs, &rm); return vs.ptr();
+}
+W void w_parse_object_f(const unsigned char* in, unsigned n, unsigned char limit, unsigned shape, Out* o) {
+  SETUP(0)
+  farena.reset(0); ResourceManager frm(&farena); VariantData fv; VariantData* m;
+  switch (shape) {
+    case 0: fv.setBoolean(true); break;
+    case 1: { ObjectData& fo = fv.toObject(); if ((m = fmember(fo, frm, "k"))) m->setBoolean(true); break; }
+    case 2: { ObjectData& fo = fv.toObject(); if ((m = fmember(fo, frm, "x"))) m->setBoolean(true); break; }
+    case 3: fv.toObject(); break;
+    case 4: { ObjectData& fo = fv.toObject(); if ((m = fmember(fo, frm, "*"))) m->setBoolean(true); break; }
+    default: break;
+  }
+  Filter filter{JsonVariantConst(&fv, &frm)};
+  VariantData v;
+  d.*get(T_found()) = true; (void)(d.*get(T_latch())).current();
+  Code c;
+  if (filter.allowObject()) { ObjectData& ob = v.toObject(); c = (d.*get(T_pof()))(ob, filter, NL(limit)); o->aux = 1; }
+  else { c = (d.*get(T_so()))(NL(limit)); o->aux = 0; }      // what parseVariant<Filter> does for '{'
+  o->aux2 = unsigned(rm.overflowed()); fill(o, d, in, c);
+}
